@@ -33,6 +33,8 @@ def run(ctx):
         'D4 SLE: only the solute is written, paired with the solute total; solubility clamped into [0, x_max]',
         'D5 pure-solute branch compares T with Tm and writes all-liquid or all-solid',
         'D6 no update of the LLE iterate is overwritten before it is read (dead store = the state keeps its initial/remembered value)',
+        'D8 every field of SLE that _setup computes from the solute named in this call or from the current flows (the pure-solute discriminator, the solute\'s '
+        'position among the equilibrium chemicals, the solute total) is stored on every normal path of _setup, not only when the set of non-zero chemicals changed',
         'D7 LLE.__call__ reads a field it also writes (state carried from call to call) only inside a validity test, under a branch '
         'guarded by such a test, or after writing it in the same call',
     ]
@@ -48,6 +50,8 @@ def run(ctx):
     f = lle.methods['__call__']
     d7 = ctx.rule('D7', 'state remembered from an earlier call is read only under a validity test', floor=6)
     history_reads(ctx, d7, f)
+    d8 = ctx.rule('D8', 'SLE._setup: state that depends on this call\'s solute or flows is stored on every path', floor=3)
+    sle_per_call_state(ctx, d8)
 
     # ---- D1
     n = 0
@@ -341,3 +345,71 @@ def history_reads(ctx, rule, f):
             rule.fail(cons, 'unvalidated-history-read-%s' % n.attr,
                       'self.%s is written by __call__ (so it survives to the next call) and is read here without any validity test and without a write '
                       'earlier in this call: the result depends on what this object was asked before' % n.attr, f, st)
+
+
+def sle_per_call_state(ctx, rule):
+    """SLE.__call__ stores the solute of THIS call in a field and calls _setup, which memoises the equilibrium objects by the
+    set of non-zero chemicals.  Whatever _setup derives from the solute (or from the amounts) is not a function of that key:
+    a field with such a store must be (re)stored on every normal path, or a later call reads the value of an earlier one."""
+    from ..cfg import CFG
+    prog = ctx.prog
+    sle = prog.cls('SLE', SLEF)
+    f = sle.methods.get('_setup')
+    call = sle.methods.get('__call__')
+    if f is None or call is None:
+        raise AnalysisError('SLE._setup / __call__ not found')
+    # per-call inputs: fields that __call__ assigns from its own parameters before calling _setup
+    params = set(call.params[1:])
+    inputs = set()
+    for n in walk_no_nested(call.node):
+        if isinstance(n, ast.Assign) and any(isinstance(x, ast.Name) and x.id in params for x in ast.walk(n.value)):
+            for t in n.targets:
+                if isinstance(t, ast.Attribute) and src(t.value) == 'self':
+                    inputs.add(src(t))
+    if not inputs:
+        raise AnalysisError('SLE.__call__: no per-call input fields found')
+    fn = f.node
+    imols = {'self._imol'} | {t.id for n in walk_no_nested(fn) if isinstance(n, ast.Assign) and src(n.value) == 'self._imol' for t in n.targets if isinstance(t, ast.Name)}
+    tainted = set()
+
+    def is_tainted(e):
+        if isinstance(e, ast.Call) and isinstance(e.func, ast.Attribute) and e.func.attr in ('nonzero_keys', 'any', 'keys'):
+            return False
+        if isinstance(e, ast.Attribute) and src(e) in inputs:
+            return True
+        if isinstance(e, ast.Subscript) and src(e.value) in imols:
+            return True
+        if isinstance(e, ast.Name):
+            return e.id in tainted
+        if isinstance(e, ast.Compare):
+            return False
+        return any(is_tainted(c) for c in ast.iter_child_nodes(e))
+    changed = True
+    while changed:
+        changed = False
+        for n in walk_no_nested(fn):
+            if isinstance(n, ast.Assign) and is_tainted(n.value):
+                for t in n.targets:
+                    for x in ([t] if isinstance(t, ast.Name) else (t.elts if isinstance(t, ast.Tuple) else [])):
+                        if isinstance(x, ast.Name) and x.id not in tainted:
+                            tainted.add(x.id)
+                            changed = True
+    stores = {}
+    per_call = set()
+    for n in walk_no_nested(fn):
+        if isinstance(n, ast.Assign):
+            for t in n.targets:
+                if isinstance(t, ast.Attribute) and src(t.value) == 'self':
+                    stores.setdefault(t.attr, []).append(n)
+                    if is_tainted(n.value):
+                        per_call.add(t.attr)
+    cfg = CFG(fn)
+    for fld in sorted(per_call):
+        nodes = {id(cfg.node_of(n)) for n in stores[fld]}
+        okk, wit = cfg.must_pass(cfg.entry, lambda nd: id(nd) in nodes)
+        if okk:
+            rule.ok('SLE._setup', 'self.%s (depends on this call\'s solute / flows) is stored on every normal path' % fld, f, stores[fld][0])
+        else:
+            rule.fail('SLE._setup', 'stale-per-call-' + fld, 'self.%s is computed from this call\'s solute / flows but some normal path of _setup leaves it untouched: '
+                      'the next call on the same object reads the value of an earlier call' % fld, f, stores[fld][0])
+    ctx.anchor(len(per_call) >= 3, 'SLE._setup: expected >= 3 per-call fields, found %s' % sorted(per_call))
